@@ -290,7 +290,7 @@ theorem introducer_packets_any_table (n : Node) (s : Nat) (pre post : List PeerR
   have hlan : ((n.tick.view s).address_is_lan q.view.address.ip) = false := by
     simp [Node.view, Node.tick, PeerRec.view, hmach]
   simp only [Node.createResponse, hpick]
-  simp [Gen.introAddrs, Gen.punctReqSends, Gen.respFields, Id.run, pure, hlan]
+  simp [Gen.introAddrs, Gen.introAddrsGen, Gen.punctReqSends, Gen.respFields, Id.run, pure, hlan]
   simp [PeerRec.view, Node.view, Node.tick, Node.myWan]
 example :
     let n : Node := { key := 0, myLan := ⟨1, 1⟩, machineIp := 1, svcs := [(7, 4), (8, 4), (9, 4), (9, 5)],
@@ -307,7 +307,7 @@ example :
 /-- create_introduction_response hands out the introduced peer's recorded LAN address and its (WAN) address -/
 theorem hands_out_known_addresses (s : SelfView) (q : PeerView) (l : Addr) (hl : q.lan_address = some l)
     (h : s.address_is_lan q.address.ip = false) : Gen.introAddrs s q = (l, q.address, true) := by
-  simp [Gen.introAddrs, Id.run, pure, h, hl]
+  simp [Gen.introAddrs, Gen.introAddrsGen, Id.run, pure, h, hl]
 
 /-- on_puncture_request: the puncture is sent to the walker's WAN address unless that address has our own WAN ip
     (same NAT), in which case it goes to the LAN walker address -/
@@ -369,11 +369,15 @@ theorem puncture_reaches_requester_address (sP : SelfView) (lanSock sock : Addr)
   rw [puncture_goes_to_wan_walker]
   simp [Gen.punctReqSends, h]
 
+/-- when there is nobody to introduce the response carries 0.0.0.0:0 twice and no puncture request is sent -/
+theorem nobody_to_introduce_hands_out_nothing (s : SelfView) : Gen.introNobody s = (Addr.zero, Addr.zero, false) := by
+  simp [Gen.introNobody, Gen.introAddrsGen, Id.run, pure]
+
 /-- first branch of create_introduction_response: a peer on the introducer's own machine is handed out with its address
     as LAN address and (the introducer's WAN ip, the peer's port) as WAN address -/
 theorem own_machine_handed_out_with_wan_ip (s : SelfView) (q : PeerView) (h : s.address_is_lan q.address.ip = true) :
     Gen.introAddrs s q = (q.address, ⟨s.my_estimated_wan.ip, q.address.port⟩, true) := by
-  simp [Gen.introAddrs, Id.run, pure, h]
+  simp [Gen.introAddrs, Gen.introAddrsGen, Id.run, pure, h]
 
 /-- Network.discover_address (translated condition): an address that is new, or whose recorded introducer is not a
     verified peer — in particular the empty introducer of an address loaded from a snapshot or left by a contact — is
